@@ -7,6 +7,7 @@ A case's failures are all looked at: an unattributed failure (finding None) is r
 finding can never hide a different violation on the same case.
 """
 import json
+import os
 import zlib
 
 from . import pipes
@@ -17,7 +18,7 @@ def _sig(case):
     return json.dumps(case.get("pipe"), sort_keys=True) + json.dumps(case.get("tables"), sort_keys=True)[:2000]
 
 
-def with_oracle(base, oracle_fn, name=None, oracle_opts=None, every=1, ignore_kinds=(), **suite_opts):
+def with_oracle(base, oracle_fn, name=None, oracle_opts=None, every=1, ignore_kinds=(), corpus_dir=None, **suite_opts):
     oracle_opts = dict(oracle_opts or {})
 
     class _S(base):
@@ -49,6 +50,19 @@ def with_oracle(base, oracle_fn, name=None, oracle_opts=None, every=1, ignore_ki
             f = fs[0]
             self._fail[_sig(case)] = f
             return f"{f['kind']}: {f['detail']}"
+
+        def corpus(self):
+            """minimised past failures (corpus/<corpus_dir>/*.json with this suite's name), run first"""
+            out = list(super().corpus() or [])
+            if corpus_dir:
+                d = os.path.join(os.path.dirname(os.path.dirname(os.path.abspath(__file__))), "corpus", corpus_dir)
+                if os.path.isdir(d):
+                    for fn in sorted(os.listdir(d)):
+                        if fn.endswith(".json"):
+                            obj = json.load(open(os.path.join(d, fn)))
+                            if obj.get("suite") in (self.name, getattr(self, "driver_suite", None)) and "case" in obj:
+                                out.append(dict(obj["case"], _always=True))
+            return out
 
         def finding(self, case, real_out, why):
             f = self._fail.get(_sig(case))
